@@ -10,7 +10,7 @@ PLAIN := $(COMMON) -O1
 ASAN  := $(COMMON) -O1 -fsanitize=address -fno-omit-frame-pointer -DSIM_BUILD_NAME='"asan"'
 B := build
 
-WORLDS_PLAIN := apptoken
+WORLDS_PLAIN := apptoken mem
 WORLDS_ASAN  :=
 
 all: $(addprefix $(B)/,$(WORLDS_PLAIN)) $(addprefix $(B)/,$(addsuffix .asan,$(WORLDS_ASAN)))
